@@ -44,13 +44,13 @@ var ManualClock int64
 func AddTimer(d int64, desc string, fire Firer) *Timer {
 	s := S
 	if s == nil {
-		panic("vrt.AddTimer outside scheduler")
+		panic(CapacityError("vrt.AddTimer outside scheduler (timers are not modelled in pass-through mode)"))
 	}
 	if d < 0 {
 		d = 0
 	}
 	if len(s.timers) >= cap(s.timers) {
-		panic("vrt: too many pending timers")
+		panic(CapacityError("vrt: too many pending timers"))
 	}
 	s.timerSeq++
 	t := &Timer{At: s.clock + d, seq: s.timerSeq, fire: fire, active: true, Desc: desc}
